@@ -146,7 +146,11 @@ auto_decoder_memconfig(void *coder_ptr, uint64_t *memusage,
 
 	lzma_ret ret;
 
-	if (coder->next.memconfig != NULL) {
+	// In SEQ_INIT no decoder has been chosen for this input yet. If this
+	// lzma_stream was used before and re-initialized without lzma_end(),
+	// coder->next still holds the decoder of the previous input and its
+	// memory limit; it must not be consulted.
+	if (coder->next.memconfig != NULL && coder->sequence != SEQ_INIT) {
 		ret = coder->next.memconfig(coder->next.coder,
 				memusage, old_memlimit, new_memlimit);
 		assert(*old_memlimit == coder->memlimit);
